@@ -1483,6 +1483,80 @@ def oracle_wire_wellformed(case, impl):
     return hits
 
 
+def oracle_nagle_off(case, impl):
+    """C18, Nagle disabled: nothing is held back. After a poll on a working transport (Established, no loss recovery,
+    no RTO mode) bytes that were buffered before the poll and have never been transmitted mean that the sender is
+    limited by something: the peer's window, the congestion window it read during that poll, or an outstanding
+    size probe (a segment larger than the proven size blocks segmentation until it is resolved)."""
+    import re
+    tr = Trace(case, impl)
+    hits = []
+    if any(l.startswith(("vs tmode", "vs chanclose")) for l in case):
+        return []
+    ok, pending, outstanding, highest, sent_first, mss0 = False, [], {}, None, 0, None
+    for ev in tr.events:
+        if ev["op"] == "new":
+            ok = ev["opts"].get("nagle") == "0" and ev["opts"]["dir"] == "out"
+            pending, outstanding, sent_first = [], {}, 0
+            highest = (int(ev["opts"].get("our", 101)) - 1) % 65536
+            try:
+                mss0 = int(ev["out"].split("min_ss=")[1].split(":")[0])
+            except (IndexError, ValueError):
+                ok = False
+        if not ok:
+            continue
+        if ev["op"] == "inject":
+            pending.append(ev.get("dgram"))
+        if ev["op"] in ("shutdown", "dropw"):
+            ok = False
+        if ev["op"] != "poll" or "dgrams" not in ev:
+            continue
+        fp = ev["fp"]
+        for d in pending:
+            if d is None or d["type"] in (1, 3, 4) or (highest is not None and (_md(d["ack"], highest) > 0 or _sack_beyond(d, highest))):
+                ok = False
+                break
+            for q in list(outstanding):
+                if _md(d["ack"], q) >= 0:
+                    del outstanding[q]
+            if d["sack"] is not None:
+                ok = False           # (selective ACKs: the pipe accounting is recovery's business, not judged here)
+                break
+        pending = []
+        if not ok or not ev["res"].startswith("pending") or fp.get("st") != "Established" \
+                or fp.get("rtor", "0") != "0" or fp.get("rec", "no") != "no":
+            ok = False
+            continue
+        for d in ev["dgrams"]:
+            if d["type"] == 0:
+                if highest is None or _md(d["seq"], highest) > 0:
+                    highest = d["seq"]
+                    sent_first += d["plen"]
+                outstanding[d["seq"]] = d["plen"]
+        unsent = ev["accepted_total"] - sent_first
+        if unsent <= 0:
+            continue
+        try:
+            lrw = int(fp.get("lrw"))
+            mss = int(fp.get("ss", "").split("min_ss=")[1].split(":")[0])
+            max_ss = int(fp.get("ss", "").split("max_ss=")[1].split(";")[0])
+        except (TypeError, ValueError, IndexError):
+            continue
+        wins = [int(x) for x in re.findall(r"window=(\d+)", ev["out"])]
+        if not wins:
+            continue
+        flight = sum(outstanding.values())
+        probe_out = any(pl > mss0 for pl in outstanding.values())
+        room = min(lrw, min(wins)) - flight
+        # the next segment may be a size probe: up to the next probe size (the binary-search step above the proven size)
+        nxt = min(mss + (max_ss - mss) // 2 + 1, max_ss)
+        if not probe_out and room >= min(unsent, nxt):
+            hits.append({"sig": {"oracle": "nagle_off", "what": "bytes_held_back_with_nagle_disabled"},
+                         "text": f"poll at t={ev['t']} ns (Nagle disabled): {unsent} buffered bytes have never been transmitted although {flight} bytes are in flight, the peer's window is {lrw}, the congestion window read in this poll was {min(wins)} and no size probe is outstanding: the next segment (at most {min(unsent, nxt)} bytes) would have fitted"})
+            return hits
+    return hits
+
+
 def oracle_eof_honest(case, impl):
     """C03: a reader sees a clean end-of-stream only after the peer's FIN: never when no FIN was ever received
     (connection aborted, channel from the socket lost, cancelled): then reads must report an error."""
@@ -1642,6 +1716,7 @@ def oracle_window_reopen(case, impl):
 
 
 ALL = {
+    "nagle_off": oracle_nagle_off,
     "wire_wellformed": oracle_wire_wellformed,
     "karn": oracle_karn,
     "acked_not_resent": oracle_acked_not_resent,
